@@ -25,7 +25,7 @@ func init() {
 
 func runC13(c *Ctx) {
 	p := c.Progs["mod"]
-	c.Rule("C13.U", "definite overwrite of every authority-bearing URL field before the dial", 8)
+	c.Rule("C13.U", "definite overwrite of every authority-bearing URL field before the dial", 9)
 	c.Rule("C13.D", "who-may-dial in the shim package", 6)
 	c.Rule("C13.M", "mounting of the shim endpoints and pass-through identity", 9)
 
@@ -134,6 +134,34 @@ func runC13(c *Ctx) {
 		}
 		if n == 0 {
 			c.Unk("C13.U", "open:request-url-from-body", p, op.Pos(), "the open endpoint no longer stores the parsed target into r.URL")
+		}
+		// the request handed on (to the session wrapper and the open handler proper, which trust
+		// r.Host and r.Header) is the endpoint's own request — not one constructed from the body
+		nd := 0
+		for _, call := range Calls(op, "(net/http.Handler).ServeHTTP", "(net/http.HandlerFunc).ServeHTTP") {
+			a := Args(CallOf(call))
+			req := a[len(a)-1]
+			nd++
+			for k := 0; k < 8; k++ {
+				if cl, ok := req.(*ssa.Call); ok {
+					switch CalleeName(cl.Common()) {
+					case "(*net/http.Request).WithContext", "(*net/http.Request).Clone":
+						req = Args(cl.Common())[0]
+						continue
+					}
+				}
+				if prm, ok := req.(*ssa.Parameter); ok && prm.Parent() != op {
+					if v := helperParamArgIn(prm, op); v != nil {
+						req = v
+						continue
+					}
+				}
+				break
+			}
+			c.Check("C13.U", "open:delegates-its-own-request", p, call.Pos(), PathOf(req) == P(op, 1), "the request passed on by the open endpoint is the endpoint's own request (its Host and headers are the front end's; only URL fields come from the body)", "the open endpoint hands "+PathOf(req)+" on instead of its own request: a request constructed from the client-supplied URL carries that URL's authority in Host (http.NewRequest sets it), which the handshake's Host rewrite and the session cookie jar trust")
+		}
+		if nd == 0 {
+			c.Unk("C13.U", "open:delegates-its-own-request", p, op.Pos(), "the open endpoint no longer delegates to a wrapped handler")
 		}
 	}
 
